@@ -59,6 +59,10 @@ def frames_for(g, k):
     info.serial_number = "00:01:02:03:04:%02x" % k
     info.mac_address = "00:01:02:03:04:%02x" % k
     fam = DIBSuppSVCFamilies()
+    # every second Core-V2 device lists the Core family once per version it implements (1 and 2), lower version first
+    both = (g["tun"] + g["rout"] + g["sectun"] + g["secrout"] + k) % 2 == 1
+    if both and g.get("core", 1) >= 2:
+        fam.families.append(F(DIBServiceFamily.CORE, 1))
     fam.families.append(F(DIBServiceFamily.CORE, g.get("core", 1)))
     if g["rout"]:
         fam.families.append(F(DIBServiceFamily.ROUTING, 1))
